@@ -18,5 +18,6 @@ def check(ctx):
     exceptions.decorators_pass_through(ctx, 'C08-R3')
     exceptions.raw_input_validated_first(ctx, 'C08-R4')
     indexing.data_index_state(ctx, 'C08-R5')
+    indexing.name_keyed_operations(ctx, 'C08-R5')
     ctx.undecided += ['termination and totality of the third-party numerics for every accepted input',
                       'whether an assert can fire is a run-time question (asserts are listed as information)']
